@@ -135,11 +135,11 @@ def run(ctx):
     if not binp:
         return
     r = ctx.rng
-    ncase = 400 if ctx.thorough else 48
+    ncase = 1200 if ctx.thorough else 48
     plan = []
     for i in range(ncase):
         wide = (i % 3 == 0)
-        plan.append((r.range(20, 140) if ctx.thorough else r.range(15, 90), r.choice(["mem", "mem", "libc"]), wide))
+        plan.append((r.range(20, 200) if ctx.thorough else r.range(15, 90), r.choice(["mem", "mem", "libc"]), wide))
     gens = [gen_case(r, t, b, w) for (t, b, w) in plan]
     rc, out, err = vlib.run_bin(binp, input="".join(g[4] + "\n" for g in gens), timeout=3000)
     lines = out.splitlines()
